@@ -232,6 +232,10 @@ def run(ctx):
     import pskel as _pskel
     _pskel.rule_P_PRIM(ctx)
     _pskel.rule_P_SKELETON(ctx)
+    # naming-law lints over the modules this property lives in (sibling slips: truth<->budget, stamp<->punctuation, left<->right, swapped arguments)
+    import roles as _roles
+    _roles.rule_R_ROLE(ctx, modules=('conversion::string::impl_enum::parser', 'conversion::inter_type', 'enum_narsese::'))
+    _roles.rule_A_NAMES(ctx, modules=('conversion::string::impl_enum::parser', 'conversion::inter_type', 'enum_narsese::'))
     ctx.undecided = ["identifier well-formedness of parsed names beyond non-emptiness (value-dependent)",
                      "formatting totality relies on the reviewed table for its index sites and on std formatting being total"]
     ctx.assumptions = ["axioms of C04 (usize +, finite iterators, unlisted external callees total)"]
